@@ -21,6 +21,7 @@ def runCase (c : Case) : List String :=
   | "lazy" => runSolve c.lines
   | "hints" => runSolve c.lines
   | "cancel" => runSolve c.lines
+  | "cancel-async" => runSolve c.lines
   | "reuse" => runSolve c.lines
   | "reuse-async" => runSolve c.lines
   | "async" => runSolve c.lines
